@@ -27,16 +27,21 @@ ASSUMPTIONS = ["floating point rounding below 1e-9 relative to the size of a der
                "modelled as repaired by fixes/C02-surface-deriv-cpts-loop.diff and fixes/C02-hodograph-keep-parametrization.diff",
                "unit vectors: sqrt is not modelled; the model returns the unnormalised vector, the comparison is done on signed squares "
                "x*|x|/(v.v); unit length is checked exactly on the squared norm of the returned floats (1e-9)"]
-THEOREM_NOTES = ("see coq/Props/C02.v: [G] row 0 of A2.3 is A2.2, zero rows above the degree, Leibniz/quotient identity of A4.2 for every order, "
-                 "normal orthogonal to tangents, cross product; [B] A4.4 for k+l <= 2, A2.3 rows sum to zero and equal the Eq. 2.9 recursion for "
-                 "degree <= 4 on a symbolic knot window")
-LEVEL_TEXT = ("partial proof: general theorems cover the structure (order > degree gives zero vectors for non-rational shapes in both evaluator "
-              "families, A4.2 output satisfies the Leibniz identity sum_i C(k,i) w^(i) C^(k-i) = A^(k) for every order, hence is the derivative "
-              "of A/w whenever its inputs are the derivatives of A and w; surface analogue for k+l <= 2; normal orthogonal to both tangents); "
-              "'A2.3 computes the derivatives of the basis functions' is proved only algebraically (Eq. 2.9 recursion, degree <= 4, symbolic "
-              "window) - the analytic link (is_derive) is NOT proved; that the evaluators' outputs equal the exact derivatives of the position "
-              "function for all degrees/orders, the agreement of the two evaluator families, the hodograph constructors and tangent/normal are "
-              "tied only by the sampled correspondence against the exact piecewise-polynomial Fraction oracle")
+THEOREM_NOTES = ("see coq/Props/C02.v (16 theorems): [G] row 0 of A2.3 is A2.2; order-0 entry is the evaluated point; zero vectors above the degree "
+                 "(curves and surfaces, both evaluator families); Leibniz/quotient identity of A4.2 for every order and dimension; hodograph control "
+                 "points (Abel summation, relative to the algebraic derivative Eq. 2.7) and A3.3 row 1 = Q; normal = cross product, orthogonal to both "
+                 "tangents; unit vector has norm 1.  [B] A4.4 Leibniz identity for all k, l <= 3; A2.3 rows = Eq. 2.9 recursion for degree <= 5 and rows "
+                 "sum to zero for degree <= 6 on a symbolic knot window (all multiplicity patterns); A3.4 = A3.2 for degree <= 3 and A3.8 (repaired) = "
+                 "A3.6 on the triangle k+l <= order for bi-degree <= (2,2), every order 0..p+2 (includes order > degree)")
+LEVEL_TEXT = ("partial proof: general theorems cover the structure (order-0 entry = point; order > degree gives zero vectors for non-rational shapes in "
+              "both evaluator families), the quotient rule (A4.2 output satisfies sum_i C(k,i) w^(i) C^(k-i) = A^(k) for every order, hence is the "
+              "k-th derivative of A/w whenever its inputs are the derivatives of A and w; surface analogue A4.4 only for k, l <= 3), the hodograph "
+              "control-point formula (relative to the algebraic derivative Eq. 2.7) and normal orthogonal to both tangents / unit length over R. "
+              "'A2.3 computes the derivatives of the basis functions' is proved only algebraically (Eq. 2.9 recursion, degree <= 5, symbolic window, "
+              "not lifted to arbitrary spans) - the analytic link (is_derive) is NOT proved; agreement of the two evaluator families is proved only "
+              "for degree <= 3 (curves) and bi-degree <= (2,2) (surfaces).  That the evaluators' outputs equal the exact derivatives of the position "
+              "function for all degrees/orders, the hodograph objects (degree, knot vectors, evaluation) and tangent/normal values are tied only by "
+              "the sampled correspondence against the exact piecewise-polynomial Fraction oracle")
 LEVEL_NOTE = ("theorems are about the hand-written Gallina model (Model/Derivs.v, Model/Basis.v), tied to evaluators.py/helpers.py/operations.py "
               "by the sampled correspondence check; the oracle differentiates the exact polynomial pieces (interpolated from exact Cox-de Boor "
               "values) formally and divides power series for rational shapes, independently of every derivative formula of the library")
